@@ -753,24 +753,35 @@ every edge test is disabled (`n = 0`) and the code reports points off the suppor
 def Tri2Ok (s : Triangle2 K) : Prop :=
   (s.b.x - s.a.x) * (s.c.y - s.a.y) - (s.b.y - s.a.y) * (s.c.x - s.a.x) ≠ 0
 
-/-- branch-by-branch summary (see `Tri2.lean`): either the non-solid interior tail, or member + variational inequality
-+ `is_inside = (proj == pt)`. -/
+/-- boundary of the triangle: a point `P + κ (Q - P)`, `κ ∈ [0,1]`, of one of the three edges; `TriLine` drops `κ ∈ [0,1]` -/
+def TriBnd (s : Triangle2 K) (x : V2 K) : Prop := TriBndRaw s.a.x s.a.y s.b.x s.b.y s.c.x s.c.y x.x x.y
+def TriLine (s : Triangle2 K) (x : V2 K) : Prop :=
+  ∃ (Rx Ry Sx Sy lam : K),
+    ((Rx = s.a.x ∧ Ry = s.a.y ∧ Sx = s.b.x ∧ Sy = s.b.y) ∨ (Rx = s.b.x ∧ Ry = s.b.y ∧ Sx = s.c.x ∧ Sy = s.c.y)
+      ∨ (Rx = s.a.x ∧ Ry = s.a.y ∧ Sx = s.c.x ∧ Sy = s.c.y)) ∧ x = ⟨Rx + (Sx - Rx) * lam, Ry + (Sy - Ry) * lam⟩
+
+/-- branch-by-branch summary (see `Tri2.lean`): either the non-solid interior tail (result on an edge, nearest among the three
+edge lines), or member + variational inequality + `is_inside = (proj == pt)` + on the boundary when `solid = false`. -/
 private theorem tri2_cases (s : Triangle2 K) (p : V2 K) (solid : Bool) (h : Tri2Ok s) :
     letI := fieldNum K sq
-    (solid = false ∧ s.Mem p ∧ (s.projectLoc p solid).1.inside = true) ∨
+    (solid = false ∧ s.Mem p ∧ (s.projectLoc p solid).1.inside = true ∧ TriBnd s (s.projectLoc p solid).1.pt ∧
+      (∀ q, TriLine s q → dsq2 p (s.projectLoc p solid).1.pt ≤ dsq2 p q)) ∨
     (s.Mem (s.projectLoc p solid).1.pt ∧
       (∀ q : V2 K, s.Mem q → (p.x - (s.projectLoc p solid).1.pt.x) * (q.x - (s.projectLoc p solid).1.pt.x)
           + (p.y - (s.projectLoc p solid).1.pt.y) * (q.y - (s.projectLoc p solid).1.pt.y) ≤ 0) ∧
-      ((s.projectLoc p solid).1.inside = true ↔ (s.projectLoc p solid).1.pt = p)) := by
+      ((s.projectLoc p solid).1.inside = true ↔ (s.projectLoc p solid).1.pt = p) ∧
+      (solid = false → TriBnd s (s.projectLoc p solid).1.pt)) := by
   letI := fieldNum K sq
   obtain ⟨⟨ax, ay⟩, ⟨bx, by'⟩, ⟨cx, cy⟩⟩ := s
   obtain ⟨px, py⟩ := p
-  have := tri2_flat_core sq ax ay bx by' cx cy px py solid h _ _ _ _ _ _ _ _ _ _ _ _ rfl rfl rfl rfl rfl rfl rfl rfl rfl rfl
+  have := tri2_flat_core sq ax ay bx by' cx cy px py solid h _ _ _ _ _ _ _ _ _ _ _ _ rfl rfl rfl rfl rfl rfl rfl rfl rfl rfl rfl rfl
     (@Triangle2.projectLoc K (fieldNum K sq) ⟨⟨ax, ay⟩, ⟨bx, by'⟩, ⟨cx, cy⟩⟩ ⟨px, py⟩ solid)
     (tri2_projectLoc_eq_flat sq _ _ _)
-  rcases this with h1 | ⟨h1, h2, h3⟩
-  · exact Or.inl h1
-  · exact Or.inr ⟨h1, fun q hq => h2 q.x q.y hq, h3⟩
+  rcases this with ⟨h1, h2, h3, h4, h5⟩ | ⟨h1, h2, h3, h4⟩
+  · refine Or.inl ⟨h1, h2, h3, h4, ?_⟩
+    rintro q ⟨Rx, Ry, Sx, Sy, lam, hR, rfl⟩
+    exact h5 Rx Ry Sx Sy lam hR
+  · exact Or.inr ⟨h1, fun q hq => h2 q.x q.y hq, h3, h4⟩
 
 /-- **membership**: for `solid = true`, or for a point outside the triangle, the projection is a point of the triangle. -/
 theorem tri2_project_mem (s : Triangle2 K) (p : V2 K) (solid : Bool) (h : Tri2Ok s) :
@@ -778,7 +789,7 @@ theorem tri2_project_mem (s : Triangle2 K) (p : V2 K) (solid : Bool) (h : Tri2Ok
     (solid = true ∨ ¬ s.Mem p) → s.Mem (s.projectLoc p solid).1.pt := by
   letI := fieldNum K sq
   intro hc
-  rcases tri2_cases sq s p solid h with ⟨h1, h2, _⟩ | ⟨h1, _, _⟩
+  rcases tri2_cases sq s p solid h with ⟨h1, h2, _⟩ | ⟨h1, _, _, _⟩
   · rcases hc with hc | hc
     · rw [h1] at hc; exact absurd hc (by simp)
     · exact absurd h2 hc
@@ -791,7 +802,7 @@ theorem tri2_project_optimal (s : Triangle2 K) (p q : V2 K) (solid : Bool) (h : 
     s.Mem q → (solid = true ∨ ¬ s.Mem p) → dsq2 p (s.projectLoc p solid).1.pt ≤ dsq2 p q := by
   letI := fieldNum K sq
   intro hq hc
-  rcases tri2_cases sq s p solid h with ⟨h1, h2, _⟩ | ⟨_, h2, _⟩
+  rcases tri2_cases sq s p solid h with ⟨h1, h2, _⟩ | ⟨_, h2, _, _⟩
   · rcases hc with hc | hc
     · rw [h1] at hc; exact absurd hc (by simp)
     · exact absurd h2 hc
@@ -802,7 +813,7 @@ theorem tri2_inside_iff (s : Triangle2 K) (p : V2 K) (solid : Bool) (h : Tri2Ok 
     letI := fieldNum K sq
     (s.projectLoc p solid).1.inside = true ↔ s.Mem p := by
   letI := fieldNum K sq
-  rcases tri2_cases sq s p solid h with ⟨_, h2, h3⟩ | ⟨h1, h2, h3⟩
+  rcases tri2_cases sq s p solid h with ⟨_, h2, h3, _⟩ | ⟨h1, h2, h3, _⟩
   · exact ⟨fun _ => h2, fun _ => h3⟩
   · rw [h3]
     constructor
@@ -814,6 +825,31 @@ theorem tri2_inside_iff (s : Triangle2 K) (p : V2 K) (solid : Bool) (h : Tri2Ok 
       obtain ⟨hx, hy⟩ := sumsq2_eq_zero h4
       exact (v2_ext (by linarith) (by linarith)).symm
 
+/-- every boundary point lies on one of the three edge lines -/
+theorem triBnd_line (s : Triangle2 K) (x : V2 K) : TriBnd s x → TriLine s x := by
+  rintro ⟨Px, Py, Qx, Qy, κ, hE, _, _, hx, hy⟩
+  exact ⟨Px, Py, Qx, Qy, κ, hE, v2_ext hx hy⟩
+
+/-- **`solid = false`** (the hollow triangle): for every query point — inside, outside or on the boundary — the returned point lies
+on one of the three edges, and no point of the three edge lines (a fortiori no boundary point) is closer.  For an interior
+point this is the tail of `point_triangle.rs` that compares the three line distances `d_ab, d_ac, d_bc`. -/
+theorem tri2_project_hollow (s : Triangle2 K) (p : V2 K) (h : Tri2Ok s) :
+    letI := fieldNum K sq
+    TriBnd s (s.projectLoc p false).1.pt ∧
+    ∀ q, TriBnd s q → dsq2 p (s.projectLoc p false).1.pt ≤ dsq2 p q := by
+  letI := fieldNum K sq
+  rcases tri2_cases sq s p false h with ⟨_, _, _, h4, h5⟩ | ⟨_, h2, _, h4⟩
+  · exact ⟨h4, fun q hq => h5 q (triBnd_line s q hq)⟩
+  · refine ⟨h4 rfl, fun q hq => ?_⟩
+    apply opt_of_var2
+    apply h2
+    -- a boundary point is a member
+    obtain ⟨Px, Py, Qx, Qy, κ, hE, k0, k1, hx, hy⟩ := hq
+    rcases hE with ⟨rfl, rfl, rfl, rfl⟩ | ⟨rfl, rfl, rfl, rfl⟩ | ⟨rfl, rfl, rfl, rfl⟩
+    · exact ⟨κ, 0, k0, le_refl _, by linarith, v2_ext (by simp only [V2.add, V2.sub, V2.smul]; rw [hx]; ring) (by simp only [V2.add, V2.sub, V2.smul]; rw [hy]; ring)⟩
+    · exact ⟨1 - κ, κ, by linarith, k0, by linarith, v2_ext (by simp only [V2.add, V2.sub, V2.smul]; rw [hx]; ring) (by simp only [V2.add, V2.sub, V2.smul]; rw [hy]; ring)⟩
+    · exact ⟨0, κ, le_refl _, k0, by linarith, v2_ext (by simp only [V2.add, V2.sub, V2.smul]; rw [hx]; ring) (by simp only [V2.add, V2.sub, V2.smul]; rw [hy]; ring)⟩
+
 /-- `contains_local_point` (default method) `⇔ Mem` -/
 theorem tri2_contains_iff (s : Triangle2 K) (p : V2 K) (h : Tri2Ok s) :
     letI := fieldNum K sq
@@ -823,6 +859,22 @@ theorem tri2_contains_iff (s : Triangle2 K) (p : V2 K) (h : Tri2Ok s) :
 example : Tri2Ok (⟨⟨0, 0⟩, ⟨4, 0⟩, ⟨0, 3⟩⟩ : Triangle2 ℚ) ∧ (⟨⟨0, 0⟩, ⟨4, 0⟩, ⟨0, 3⟩⟩ : Triangle2 ℚ).Mem ⟨1, 1⟩ := by
   refine ⟨by simp only [Tri2Ok]; norm_num, ⟨1/4, 1/3, by norm_num, by norm_num, by norm_num, ?_⟩⟩
   simp only [V2.add, V2.sub, V2.smul]; norm_num
+
+/-- **location**: the reported `TrianglePointLocation` reproduces the projection — `OnVertex(i)` is vertex `i`; `OnEdge(i,[b0,b1])`
+has `b0 + b1 = 1` and `proj = b0·P + b1·Q` for the edge's end points (`0: ab`, `1: bc`, `2: ac`); `OnFace` never occurs in 2-D;
+`OnSolid` only with `solid = true`, and then `proj = pt`. -/
+theorem tri2_location_sound (s : Triangle2 K) (p : V2 K) (solid : Bool) :
+    letI := fieldNum K sq
+    match (s.projectLoc p solid).2 with
+    | .vertex i => (i = 0 ∧ (s.projectLoc p solid).1.pt = s.a) ∨ (i = 1 ∧ (s.projectLoc p solid).1.pt = s.b)
+        ∨ (i = 2 ∧ (s.projectLoc p solid).1.pt = s.c)
+    | .edge i b0 b1 => b0 + b1 = 1 ∧ ((i = 0 ∧ (s.projectLoc p solid).1.pt = (s.a.smul b0).add (s.b.smul b1))
+        ∨ (i = 1 ∧ (s.projectLoc p solid).1.pt = (s.b.smul b0).add (s.c.smul b1))
+        ∨ (i = 2 ∧ (s.projectLoc p solid).1.pt = (s.a.smul b0).add (s.c.smul b1)))
+    | .face _ _ _ _ => False
+    | .solid => (s.projectLoc p solid).1.pt = p ∧ solid = true := by
+  letI := fieldNum K sq
+  exact tri2_flat_location sq s.a s.b s.c p _ _ _ _ _ _ _ _ _ _ _ _ solid _ (tri2_projectLoc_eq_flat sq s p solid)
 
 /-! ## Default methods of `PointQuery` and posed forms (generic in the shape's `project_local_point`) -/
 
